@@ -752,7 +752,16 @@ func c06Step(r *eng.Run, wr *WRun, tr *msgTrack, i int) {
 		tr.sinceFlush = true
 	case WOpReadFrom, WOpCopy:
 		tr.sinceFlush = true
-		tr.onlyWrites = false
+		if !(op.SrcEnd && !op.SrcErr && op.N > 0) {
+			// (A source that hands its last bytes over together with io.EOF
+			// lets the writer know that the data has ended before the buffer
+			// would have to be flushed: such a copy counts like plain writes
+			// for "data that fits the buffer leaves as a single frame". A
+			// source that reports the end in a separate call does not: a
+			// buffer that is exactly full by then has been flushed as a
+			// fragment - not demanded otherwise, DESIGN §4 C06.)
+			tr.onlyWrites = false
+		}
 	case WOpThrough:
 		tr.sinceFlush = true
 		tr.onlyWrites = false
@@ -841,7 +850,7 @@ func c06Step(r *eng.Run, wr *WRun, tr *msgTrack, i int) {
 			}
 			if emittedFinal {
 				if tr.onlyWrites && pending <= tr.startSize && tr.frames != 1 {
-					r.Failf("fits_buffer_but_fragmented", "message of %d bytes written by plain Write calls into a writer of Size()=%d left as %d frames", pending, tr.startSize, tr.frames)
+					r.Failf("fits_buffer_but_fragmented", "message of %d bytes (plain Write calls, copies from sources that end together with their last bytes) into a writer of Size()=%d left as %d frames", pending, tr.startSize, tr.frames)
 				}
 				if cfg.NoFlush && tr.buffered && tr.frames != 1 {
 					r.Failf("noflush_fragmented", "DisableFlush: message of %d bytes left as %d frames", pending, tr.frames)
